@@ -67,6 +67,8 @@ AbsMapOp(e, A, A2, ph) ==
     [] e.op = "get" -> same(IF P THEN <<x[2], x[3], x[4]>> ELSE <<-1, -1, -1>>)
     [] e.op = "get_q" -> same(IF P THEN <<x[3], x[4]>> ELSE <<-1, -1>>)
     [] e.op = "contains" -> same(IF P THEN <<1>> ELSE <<0>>)
+    \* C09: every default-constructed iterator is empty (r = <<number that behaved as empty, number constructed>>)
+    [] e.op = "iter_default" -> AR(A, {}, Len(e.r) = 2 /\ e.r[1] = e.r[2] /\ e.r[2] > 0)
     [] e.op = "re_get" -> same(IF P THEN <<x[2], x[3], x[4]>> ELSE <<-1, -1, -1>>)
     [] e.op = "get_mut" ->
          IF P THEN AR((A \ {x}) \cup {SetV(x, e.v)}, {}, e.r = <<1>> /\ e.pn = "") ELSE same(<<0>>)
